@@ -192,14 +192,10 @@ def coq_case45(n, ops, encs):
 def oracle45(H, op, out, snap, mem):
     """The statement of C45 on the implementation.  mem: dict carried along the history."""
     finds = []
-    during_replace = mem.setdefault('during_replace', False)
-    if op[0] == 'run' and op[3] and mem.get('last_task', ('',))[0] == 'replace' and op[2] == 'ok':
-        mem['during_replace'] = during_replace = True
     if snap['cl_down']:
         open_ = [c for c in range(snap['nconn']) if c not in snap['closed']]
         if open_:
-            cls = 'replacement-finished-after-pool-shutdown' if during_replace else 'other'
-            finds.append(('open-after-cluster-shutdown.' + cls, 'connections %r still open after Cluster.shutdown' % open_, 'C45_all_closed'))
+            finds.append(('open-after-cluster-shutdown', 'connections %r still open after Cluster.shutdown' % open_, 'C45_all_closed'))
     elif snap['sess_down']:
         open_ = [c for c in range(snap['nconn']) if c not in snap['closed'] and c != snap['cc_conn']]
         if open_:
